@@ -5,6 +5,8 @@ d="$1"; id=$(echo "$d" | sed -E 's#.*/out-([a-z0-9]+)/([^/]+)/?$#\1-\2#')
 wt=$(mktemp -d /tmp/benver.XXXXXX); git -C /repo worktree add --detach "$wt" HEAD -q
 trap 'git -C /repo worktree remove --force "$wt" 2>/dev/null' EXIT
 if ! git -C "$wt" apply "$d/patch.diff" 2>/dev/null; then echo "$id DOES-NOT-APPLY"; exit 0; fi
+suite=""
+if [ "$SUITE" = 1 ]; then ( cd "$wt" && /venv/bin/python -m pytest -q -p no:cacheprovider --timeout=900 2>/dev/null | grep -E "^FAILED" | sed 's/ - .*//' | sort > "$wt/.fails" ); if diff -q "$wt/.fails" /tmp/seed/baseline_failures.txt >/dev/null; then suite=" suite=same"; else suite=" suite=DIFF"; fi; fi
 res=""
 for p in $(ls /verif/mystsa/rules/c[0-9][0-9].py | sed 's/.*\/c\([0-9]*\).py/C\1/'); do
   out=$(MYSTSA_REPO="$wt" MYSTSA_NOWRITE=1 MYSTSA_NO_SELFTEST=1 /verif/check "$p" --tier quick 2>&1); rc=$?
@@ -13,4 +15,4 @@ for p in $(ls /verif/mystsa/rules/c[0-9][0-9].py | sed 's/.*\/c\([0-9]*\).py/C\1
     res="$res $p:rc$rc[$rules]"
   fi
 done
-echo "$id |$res"
+echo "$id$suite |$res"
